@@ -52,14 +52,22 @@ class OracleStop(BaseException):
 # ---------------------------------------------------------------------------
 
 
-class SchedWorklist:
+from xdsl.utils.worklist import Worklist as _RealWorklist  # noqa: E402
+
+
+class SchedWorklist(_RealWorklist[Any]):
+    """The shipped ``Worklist`` with a seeded ``pop``: push / remove / bool (and whatever
+    else the driver calls) are the real code and keep the real bookkeeping; ``pop`` takes
+    *some* present item chosen by the policy - the last one through the real ``pop``, any
+    other one through the real ``remove``.  Present items in push order are read from the
+    worklist's own index map (insertion-ordered)."""
+
     def __init__(self, s: Stream | None, policy: str, dup_rate: int = 0, attached_ops=None, rng: random.Random | None = None):
+        super().__init__()
         self.s = s
         self.policy = policy
         self.dup_rate = dup_rate
         self.attached_ops = attached_ops
-        self.items: list[Any] = []
-        self.present: set[int] = set()
         self.pops = 0
         self.dups = 0
         self.order: list[int] = []
@@ -69,22 +77,17 @@ class SchedWorklist:
         self.max_pops = 10**9
         self.max_dups = 10**9
 
-    def __bool__(self) -> bool:
-        return bool(self.items)
-
-    def push(self, item: Any) -> None:
-        if id(item) not in self.present:
-            self.present.add(id(item))
-            self.items.append(item)
+    def present(self) -> list[Any]:
+        m = getattr(self, "_map", None)
+        if not isinstance(m, dict):
+            raise HarnessError("xdsl.utils.worklist.Worklist has no '_map' dict any more: the scheduler seam must be adapted")
+        return list(m)
 
     def remove(self, item: Any) -> None:
-        if id(item) in self.present:
-            self.present.discard(id(item))
-            for i, x in enumerate(self.items):
-                if x is item:
-                    del self.items[i]
-                    break
+        m = getattr(self, "_map", None)
+        if isinstance(m, dict) and item in m:
             self.removed_while_pending += 1
+        super().remove(item)
 
     def _choice(self, n: int) -> int:
         if self.s is not None:
@@ -93,8 +96,9 @@ class SchedWorklist:
         return self.rng.randrange(n)
 
     def pop(self) -> Any:
-        if not self.items:
-            raise IndexError("pop from empty worklist")
+        items = self.present()
+        if not items:
+            return super().pop()  # raises IndexError like the shipped worklist
         if self.pops >= self.max_pops:
             raise _Spin()
         if self.s is not None:
@@ -105,7 +109,8 @@ class SchedWorklist:
             if cands:
                 self.push(cands[self.s.choice(len(cands))])
                 self.dups += 1
-        n = len(self.items)
+                items = self.present()
+        n = len(items)
         pol = self.policy
         if pol == "lifo":
             i = n - 1
@@ -117,8 +122,11 @@ class SchedWorklist:
             i = n - 1 - self._choice(min(3, n))
         else:  # defer-top
             i = n - 2 if n >= 2 and self._choice(2) == 0 else n - 1
-        item = self.items.pop(i)
-        self.present.discard(id(item))
+        if i == n - 1:
+            item = super().pop()  # the shipped LIFO path
+        else:
+            item = items[i]
+            super().remove(item)
         self.pops += 1
         self.order.append(i if pol != "lifo" else 0)
         self.last_popped = item
@@ -1036,7 +1044,7 @@ class DriverEngine(Engine):
                 "xdsl.builder.Builder, xdsl.rewriter.Rewriter",
                 "second workload: xdsl.transforms.canonicalize.CanonicalizationRewritePattern with every dialect's canonicalization patterns on filecheck corpus modules",
             ],
-            "simulated": ["walker._worklist (SchedWorklist: seeded pop order, spurious wake-ups)"],
+            "simulated": ["the pop order of walker._worklist: SchedWorklist subclasses the shipped xdsl.utils.worklist.Worklist (push / remove / bool and the LIFO pop are the real code) and overrides pop with a seeded choice among the present items, plus spurious wake-ups"],
             "stub": ["first workload: rewrite patterns are harness patterns (the property quantifies over terminating pattern sets)"],
         }
 
